@@ -141,6 +141,50 @@ def stepRes (s : State) (f : List String) : Option (State × String) :=
           pure (s6, r1 ++ ",pend>" ++ callRes s6 j)
       else
         pure (quiesce [] fuel s2, r1 ++ ",-")
+  | some "lockq" => do
+    let s ← setAv s (arg 2)
+    let (holderR, extra) ← match (arg 1).toList with
+      | ['r', '0'] => some (true, false)
+      | ['r', '1'] => some (true, true)
+      | ['w', '0'] => some (false, false)
+      | ['w', '1'] => some (false, true)
+      | _ => none
+    if !live s then
+      let (s1, r) := echoCall s []
+      pure (s1, r ++ ",-")
+    else if !s.redial then
+      let (s1, r) := echoCall (quiesce [] fuel (loseLive s)) []
+      pure (s1, r ++ ",-")
+    else
+      let rd := readerIdx s s.conn
+      let atLocked : Pc → Bool := fun p => match p with | .xLocked _ => true | _ => false
+      -- `sq`: the holder has run its round, the queued party `q` has the lock and stands at its gate
+      let (sq, j, q) :=
+        if holderR then
+          let s1 := runThread rd atLocked fuel (loseLive s)        -- reader holds the lock
+          let (s2, j, w) := spawnCall s1
+          let s3 := runThread w noStop fuel s2                      -- writer: blocked at xLock
+          let s4 := quiesce [w] fuel s3                             -- reader: round, then to its end
+          (quiesce [w] fuel (runThread w atLocked fuel s4), j, w)
+        else
+          let s1 := runThread rd (isPc .dRedial) fuel (loseLive s)
+          let (s2, j, w) := spawnCall s1
+          let s3 := runThread w atLocked fuel s2                    -- writer holds the lock
+          let s4 := runThread rd noStop fuel s3                     -- reader: blocked at xLock
+          let s5 := tryReply (runThread w noStop fuel s4) j         -- writer: round, call, reply
+          (quiesce [rd] fuel (runThread rd atLocked fuel s5), j, rd)
+      if extra && live sq then
+        let (s6, j2, w2) := spawnCall sq
+        let s7 := quiesce [q] fuel (runThread w2 noStop fuel s6)
+        let s8 := quiesce [] fuel (tryReply (runThread q noStop fuel s7) j)
+        match (s8.calls[j2]?).bind (·.res) with
+        | some c => pure (s8, callRes s8 j ++ "," ++ showCode c)
+        | none =>
+          let s9 := quiesce [] fuel (tryReply s8 j2)
+          pure (s9, callRes s9 j ++ ",pend>" ++ callRes s9 j2)
+      else
+        let s8 := quiesce [] fuel (tryReply (runThread q noStop fuel sq) j)
+        pure (s8, callRes s8 j ++ ",-")
   | _ => none
 
 def showKey : Key → String
